@@ -376,6 +376,39 @@ public:
       O["o"] = BO->getOpcodeStr().str();
       O["l"] = ex(BO->getLHS(), Depth + 1);
       O["r"] = ex(BO->getRHS(), Depth + 1);
+      // width facts for masking: an operand of & that is a complemented (~) unsigned value of a
+      // narrower type, zero-extended to the width of the operation, clears the high bits too
+      if (BO->getOpcode() == BO_And || BO->getOpcode() == BO_AndAssign) {
+        QualType CT = BO->getType();
+        if (auto *CA = dyn_cast<CompoundAssignOperator>(BO))
+          CT = CA->getComputationResultType();
+        if (!CT.isNull() && CT->isIntegerType()) {
+          unsigned W = Ctx.getIntWidth(CT);
+          O["w"] = (int64_t)W;
+          const Expr *Ops[2] = {BO->getLHS(), BO->getRHS()};
+          for (int i = 0; i < 2; i++) {
+            const Expr *Op = Ops[i]->IgnoreParens();
+            auto *IC = dyn_cast<ImplicitCastExpr>(Op);
+            if (!IC || IC->getCastKind() != CK_IntegralCast)
+              continue;
+            const Expr *Sub = IC->getSubExpr()->IgnoreParens();
+            QualType ST = Sub->getType();
+            if (ST.isNull() || !ST->isUnsignedIntegerType() || Ctx.getIntWidth(ST) >= W)
+              continue;
+            if (auto *U = dyn_cast<UnaryOperator>(Sub))
+              if (U->getOpcode() == UO_Not) {
+                json::Object Z;
+                Z["side"] = i == 0 ? "l" : "r";
+                Z["from"] = (int64_t)Ctx.getIntWidth(ST);
+                Z["to"] = (int64_t)W;
+                int64_t Dummy;
+                Z["const"] = tryConst(Sub, Dummy);
+                Z["ot"] = typeStr(Ops[1 - i]->IgnoreParenImpCasts()->getType());
+                O["zxnot"] = json::Value(std::move(Z));
+              }
+          }
+        }
+      }
       if (IsConst) {
         O["c"] = CV;
         addMacro(O, BO->getOperatorLoc());
